@@ -1,5 +1,6 @@
 import DcVerif.Lemmas.Ring
 import DcVerif.Props.C04
+import DcVerif.Lemmas.RingMulti
 /-!
 # C13 — a later barrier stage sees an event only after the previous stage finished it (single-producer pipelines)
 
@@ -20,33 +21,46 @@ For every ring size, topology, batch list, wait strategy and **every schedule** 
 namespace C13
 open Ring
 
-theorem c13_stage_order {x : PSt} (hr : Reachable x) (k j : Nat) (hk : k + 1 < x.s.K) (hj : j < x.s.h (k + 1))
-    (hpc : (x.s.cons (k + 1) j).pc = .handle) (hi : (x.s.cons (k + 1) j).i ≤ (x.s.cons (k + 1) j).avail)
-    (j' : Nat) (hj' : j' < x.s.h k) :
-    (x.s.cons (k + 1) j).i ≤ (x.s.cons k j').cur ∧ (x.s.cons (k + 1) j).i ∈ (x.s.cons k j').log := by
-  obtain ⟨hI, hK, hP, hb⟩ := reachable_inv hr
+/-- consumer-side fact, independent of the kind of producer -/
+theorem stage_order_of_inv (s : St) (hI : Ring.Inv s) (k j : Nat) (hk : k + 1 < s.K) (hj : j < s.h (k + 1))
+    (hpc : (s.cons (k + 1) j).pc = .handle) (hi : (s.cons (k + 1) j).i ≤ (s.cons (k + 1) j).avail)
+    (j' : Nat) (hj' : j' < s.h k) :
+    (s.cons (k + 1) j).i ≤ (s.cons k j').cur ∧ (s.cons (k + 1) j).i ∈ (s.cons k j').log := by
   have hc := hI.2 (k + 1) j hk hj
   have hav := hc.availLe (by simp [hpc]) j' (by simpa [ndeps] using hj')
   simp only [dep, Nat.add_one_ne_zero, if_false, Nat.add_sub_cancel] at hav
   have hge := hc.iGe hpc
   have hne := hc.nextEq (by simp [hpc])
-  have hle : (x.s.cons (k + 1) j).i ≤ (x.s.cons k j').cur := by omega
+  have hle : (s.cons (k + 1) j).i ≤ (s.cons k j').cur := by omega
   refine ⟨hle, ?_⟩
   -- the earlier-stage handler's log contains 1 … (its progress) ⊇ 1 … cur
   have hc' := hI.2 k j' (by omega) hj'
-  have hpos : 1 ≤ (x.s.cons (k + 1) j).i := by omega
-  by_cases h1 : (x.s.cons k j').pc = .handle
+  have hpos : 1 ≤ (s.cons (k + 1) j).i := by omega
+  by_cases h1 : (s.cons k j').pc = .handle
   · rw [hc'.logH h1]
     have := (hc'.curAvail (by simp [h1])).1
     have := hc'.nextEq (by simp [h1])
     have := hc'.iGe h1
     simp only [List.mem_range'_1]; omega
-  · by_cases h2 : (x.s.cons k j').pc = .publish
+  · by_cases h2 : (s.cons k j').pc = .publish
     · rw [hc'.logP h2]
       have := hc'.curAvail (by simp [h2])
       simp only [List.mem_range'_1]; omega
     · rw [hc'.logO h1 h2]
       simp only [List.mem_range'_1]; omega
+
+theorem c13_stage_order {x : PSt} (hr : Reachable x) (k j : Nat) (hk : k + 1 < x.s.K) (hj : j < x.s.h (k + 1))
+    (hpc : (x.s.cons (k + 1) j).pc = .handle) (hi : (x.s.cons (k + 1) j).i ≤ (x.s.cons (k + 1) j).avail)
+    (j' : Nat) (hj' : j' < x.s.h k) :
+    (x.s.cons (k + 1) j).i ≤ (x.s.cons k j').cur ∧ (x.s.cons (k + 1) j).i ∈ (x.s.cons k j').log :=
+  stage_order_of_inv x.s (reachable_inv hr).1 k j hk hj hpc hi j' hj'
+
+/-- the same for pipelines fed by the multi-producer sequencer (any number of writer threads, every schedule) -/
+theorem c13_multi_stage_order {x : RingMulti.MSt} (hr : RingMulti.MReachableWF x) (k j : Nat) (hk : k + 1 < x.s.K)
+    (hj : j < x.s.h (k + 1)) (hpc : (x.s.cons (k + 1) j).pc = .handle)
+    (hi : (x.s.cons (k + 1) j).i ≤ (x.s.cons (k + 1) j).avail) (j' : Nat) (hj' : j' < x.s.h k) :
+    (x.s.cons (k + 1) j).i ≤ (x.s.cons k j').cur ∧ (x.s.cons (k + 1) j).i ∈ (x.s.cons k j').log :=
+  stage_order_of_inv x.s (RingMulti.mreachableWF_good hr).2.1 k j hk hj hpc hi j' hj'
 
 theorem c13_chain {x : PSt} (hr : Reachable x) (k j j' : Nat) (hk : k + 1 < x.s.K) (hj : j < x.s.h (k + 1))
     (hj' : j' < x.s.h k) : (x.s.cons (k + 1) j).cur ≤ (x.s.cons k j').cur ∧ (x.s.cons k j').cur ≤ x.s.cursor := by
